@@ -1039,12 +1039,18 @@ func linkable(elementName string) bool {
 
 // relContains returns true if the space separated rel value contains the token
 func relContains(rel string, token string) bool {
-	for _, t := range strings.Fields(rel) {
+	// tokens are separated by ASCII whitespace only: a non-breaking space is
+	// part of a token
+	for _, t := range strings.FieldsFunc(rel, isASCIIWhitespace) {
 		if strings.EqualFold(t, token) {
 			return true
 		}
 	}
 	return false
+}
+
+func isASCIIWhitespace(r rune) bool {
+	return r == ' ' || r == '\t' || r == '\n' || r == '\f' || r == '\r'
 }
 
 // stringInSlice returns true if needle exists in haystack
